@@ -88,6 +88,7 @@ PROPS = {
                 key=lambda ops: any(o.startswith('b_finish') for o in ops)),
 }
 
+SMALL_SCOPE_PROPS = {'C01', 'C02', 'C03', 'C04', 'C06', 'C07', 'C09'}
 # histories per scenario family (a property with more families gets proportionally more histories)
 PER_FAMILY = {'quick': 500, 'thorough': 8000}
 TRUSTED_BASE = [
@@ -385,6 +386,23 @@ def correspondence(prop, text, it, mt):
     return rel, drift
 
 
+_AN = None
+
+
+def _analyse(i):
+    prop, hs, impl, model = _AN
+    t = hs[i]
+    if impl[i] is None:
+        return i, [oracles.Finding(0, 'the harness produced no trace for this history (crash or timeout)')], None, False
+    if impl[i]['header'].endswith('unsupported'):
+        return i, [], None, False
+    f = pyref_findings(prop, t, impl[i]) + oracle_findings(prop, t, impl[i])
+    rel, drift = (None, False)
+    if model[i] is not None:
+        rel, drift = correspondence(prop, t, impl[i], model[i])
+    return i, f, rel, bool(drift)
+
+
 # ------------------------------------------------------------------------------------ shrinking
 def violates(prop, text):
     impl, _, _ = run_all([text], 'shrink', want_model=False)
@@ -452,6 +470,9 @@ def make_histories(prop, tier, seed):
     hs = [(h.family, h.text()) for h in gen.generate(seed, fams, count)]
     if prop == 'C11':
         hs += [('suffix_exhaustive', h.text()) for h in gen.suffix_exhaustive(seed, ns=(4, 5, 8) if tier == 'quick' else (4, 5, 8, 9, 17, 33))]
+    if prop in SMALL_SCOPE_PROPS:
+        # small scope: every operation sequence of length 3 over a reduced alphabet (thorough); a sample of length-5 ones (quick)
+        hs += [('small_scope', h.text()) for h in (gen.small_scope(seed, depth=3) if tier == 'thorough' else gen.small_scope(seed, depth=5, sample=360))]
     if prop == 'C17':
         hs += [('builder_exhaustive', h.text()) for h in gen.builder_exhaustive(seed, dmax=4 if tier == 'quick' else 7)]
     if spec.get('lockstep'):
@@ -518,17 +539,15 @@ def check(prop, tier, seed):
                             continue
                         if [l for l in t['lines'] if l[0] in 'RO'] != [l for l in impl[i]['lines'] if l[0] in 'RO']:
                             findings.append((i, [oracles.Finding(0, 'results differ between runs (RAYON_NUM_THREADS=%s, repetition %d)' % (nt, r))]))
-        for i, t in enumerate(hs):
-            if impl[i] is None:
-                findings.append((i, [oracles.Finding(0, 'the harness produced no trace for this history (crash or timeout)')]))
-                continue
-            if impl[i]['header'].endswith('unsupported'):
-                continue
-            f = pyref_findings(prop, t, impl[i]) + oracle_findings(prop, t, impl[i])
-            if f:
-                findings.append((i, f))
-            if model[i] is not None:
-                rel, drift = correspondence(prop, t, impl[i], model[i])
+        # per-history analysis (reference semantics, structural oracles, model/implementation comparison) in
+        # forked workers: the traces are inherited through the module-level _AN
+        global _AN
+        _AN = (prop, hs, impl, model)
+        import multiprocessing
+        with multiprocessing.get_context('fork').Pool(min(16, os.cpu_count() or 4)) as pool:
+            for i, f, rel, drift in pool.imap(_analyse, range(len(hs)), chunksize=32):
+                if f:
+                    findings.append((i, f))
                 if rel:
                     corr.append((i, rel))
                 if drift:
